@@ -165,6 +165,7 @@ def instances(tier):
         out.append(inst('curve p%d unclamped rat' % p, h_curve, min_paths=2, p=p, kv=fam.unclamped_uniform(p, p + 3), dim=2, rational=True))
         out.append(inst('curve p%d unclamped nonrat' % p, h_curve, min_paths=2, p=p, kv=fam.unclamped_unit(p, p + 2), dim=2, rational=False))
         out.append(inst('curve p%d domain[2,5] rat' % p, h_curve, min_paths=3, p=p, kv=fam.pattern(p, (1, 1), 2, 5), dim=2, rational=True))
+        out.append(inst('curve p%d domain[-1,1] nonrat' % p, h_curve, min_paths=3, p=p, kv=fam.pattern(p, (1, 1), -1, 1), dim=2, rational=False))
         out.append(inst('curve p%d binsearch' % p, h_curve, min_paths=3, p=p, kv=fam.pattern(p, (1, p)), dim=2, rational=False, span='find_span_binsearch'))
         out.append(inst('curve p%d normalize_kv' % p, h_curve, min_paths=3, p=p, kv=fam.pattern(p, (1, 1)), dim=2, rational=True, normalize=True))
     out.append(inst('curve p2 4D nonrat', h_curve, p=2, kv=fam.pattern(2, (1,)), dim=4, rational=False))
@@ -194,6 +195,9 @@ def instances(tier):
             out.append(inst('surface p%d,%d m%s,%s %s' % (pu, pv, mu, mv, 'rat' if rational else 'nonrat'), h_surface, timeout=600,
                             min_paths=(_spans(kvu, pu) + 1) * (_spans(kvv, pv) + 1),
                             pu=pu, pv=pv, kvu=kvu, kvv=kvv, dim=3, rational=rational))
+    out.append(inst('surface p1,2 domain[-1,1]x[-2,3] rat', h_surface, timeout=600, pu=1, pv=2, kvu=fam.pattern(1, (1,), -1, 1), kvv=fam.pattern(2, (1,), -2, 3), dim=3, rational=True))
+    out.append(inst('surfgrid p1,2 domain[-1,1]x[-2,3] ss3x2', h_surface_grid, timeout=600, pu=1, pv=2, kvu=fam.pattern(1, (1,), -1, 1), kvv=fam.pattern(2, (1,), -2, 3), dim=3, rational=False, ssu=3, ssv=2))
+    out.append(inst('volume p(1,1,2) domains with 0 inside', h_volume, timeout=900, degs=(1, 1, 2), kvs=[fam.pattern(1, (), -1, 1), fam.pattern(1, (1,), -1, 2), fam.pattern(2, (), -3, 1)], dim=3, rational=False))
     out.append(inst('surface p2,1 unclamped-u rat', h_surface, timeout=600, pu=2, pv=1, kvu=fam.unclamped_uniform(2, 4), kvv=fam.pattern(1, (1,)), dim=3, rational=True))
     out.append(inst('surface p1,2 unclamped-v nonrat', h_surface, timeout=600, pu=1, pv=2, kvu=fam.pattern(1, ()), kvv=fam.unclamped_unit(2, 4), dim=3, rational=False))
     out.append(inst('volume p(1,1,2) unclamped-w nonrat', h_volume, timeout=900, degs=(1, 1, 2), kvs=[fam.pattern(1, ()), fam.pattern(1, (1,)), fam.unclamped_unit(2, 4)], dim=3, rational=False))
